@@ -46,6 +46,7 @@ def run(prog, rep, tier):
     check_no_silent_drop(prog, r5)
     r6 = rep.rule("R04.6", "encoder and decoder dispatch on the same NLRI types")
     check_tables(prog, r6, table)
+    check_flowspec_len(prog, r6)
 
 
 # ---------------------------------------------------------------------------------------------- tables
@@ -122,7 +123,7 @@ def check_fit(prog, r, bc, table):
                 buf_ref = _referent(it, st0, t["args"][1])
             m_loc = re.fullmatch(r"L(\d+)", buf_ref or "")
             if m_loc and int(m_loc.group(1)) > fv.f["argc"]:
-                _check_scratch(prog, r, fv, it, brs, bi, tag, int(m_loc.group(1)), lps)
+                _check_scratch(prog, r, fv, it, brs, bi, tag, int(m_loc.group(1)), lps, bc, key)
                 continue
             fit = None
             for g, labels, how in gs:
@@ -213,7 +214,7 @@ def _variant_types(prog):
     return out
 
 
-def _check_scratch(prog, r, fv, it, brs, bi, tag, local, lps):
+def _check_scratch(prog, r, fv, it, brs, bi, tag, local, lps, bc=None, key=None):
     """The entry is encoded into a local buffer: it must reach the output only through an append that is guarded by
     a fit test against the scratch buffer's real length."""
     from ..models import referent as _referent
@@ -249,7 +250,26 @@ def _check_scratch(prog, r, fv, it, brs, bi, tag, local, lps):
                 lens = [c for c in expr_calls(used) if c.endswith("::len")]
                 if op in ("Gt", "Ge") and len(lens) >= 2 and name in expr_vars(used):
                     ok = True
-        if ok:
+        # nothing else may be appended to the message on the strength of that test: every other write to the output
+        # buffer inside the same loop iteration and behind the same test is unaccounted for
+        extra = []
+        if ok and bc is not None:
+            dstp = [l for l, nm in fv.local_name.items() if nm in ("dst", "c") and l <= fv.f["argc"]]
+            w = bc._weights(key, dstp[0], it, []) if dstp else {}
+            inner = [body for h, body, backs in lps if b2 in body]
+            body = min(inner, key=len) if inner else set()
+            # the branch block of the fit test
+            fit_blocks = {br.bi for br, labels in guards_of(fv, b2, brs) if br.expr[0] == "bin" and any(c.endswith("max_message_length") for c in expr_calls(br.expr))}
+            for b3 in sorted(body):
+                if b3 == b2 or not w.get(b3):
+                    continue
+                under = {br.bi for br, labels in guards_of(fv, b3, brs)}
+                if fit_blocks & under:
+                    extra.append((b3, w[b3]))
+        if ok and extra:
+            r.fail(fv.name, "scratch-path-unaccounted-bytes:" + tag, "behind the test that `len(dst) + %s.len()` fits, %s more byte(s) are appended to the message at line %d without being part of `%s`: "
+                   "the frame can exceed max_message_length() by that much" % (name, extra[0][1], fv.line(extra[0][0]), name), fv.loc(extra[0][0]))
+        elif ok:
             r.ok("%s@%d: entry encoded into `%s` and appended only if its real length fits" % (tag, fv.line(b2), name))
         else:
             r.fail(fv.name, "scratch-append-unguarded:" + tag, "the NLRI encoded into `%s` is appended to the message at line %d without a test that `len(dst) + %s.len()` stays within max_message_length()" % (name, fv.line(b2), name), fv.loc(b2))
@@ -539,6 +559,56 @@ def check_no_silent_drop(prog, r):
 
 
 # ---------------------------------------------------------------------------------------------- R04.6
+def check_flowspec_len(prog, r):
+    """FlowSpec NLRI length (RFC 8955 section 4.1): one octet for lengths below 0xF0, otherwise two octets whose first has the
+    high nibble 0xF.  The reader decides by `first < 0xF0`; the writer's one-octet form must therefore never produce a
+    first octet >= 0xF0, and its two-octet form always does."""
+    wk = prog.find(r"rustybgp_packet::flowspec::write_nlri_len")
+    rk = prog.find(r"rustybgp_packet::flowspec::read_nlri_len")
+    if len(wk) != 1 or len(rk) != 1:
+        r.unanalysable("flowspec write_nlri_len / read_nlri_len anchors matched %d / %d" % (len(wk), len(rk)))
+        return
+    rv_ = view(prog, rk[0])
+    thr = None
+    for bb, br in branches(rv_).items():
+        e = br.expr
+        if e[0] == "bin" and e[1] in ("Lt", "Ge") and "first" in expr_vars(e):
+            for x in (e[2], e[3]):
+                if x[0] == "const" and isinstance(x[1], int):
+                    thr = x[1]
+    if thr is None:
+        r.unanalysable("read_nlri_len: threshold test on the first octet not recognised", rv_.loc())
+        return
+    it = analyse(prog, wk[0])
+    fv = it.fv
+    r.analysed(fv.name, rv_.name)
+    puts = fv.calls(re.compile(r".*BufMut::put_u8$"))
+    firsts = [(b, t) for b, t in puts if not any(b in fv.reach_after(b0) for b0, _ in puts if b0 != b)]
+    n = 0
+    for b, t in firsts:
+        if b not in it.IN:
+            continue
+        st = it.IN[b].copy()
+        for j, s2 in enumerate(fv.blocks[b]["s"]):
+            if "rv" in s2:
+                it.do_assign(st, s2, b, j, False)
+        lo, hi = it.range_of(st, t["args"][1])
+        follow = [b1 for b1, _ in puts if b1 in fv.reach_after(b)]
+        n += 1
+        if not follow:
+            if hi < thr:
+                r.ok("write_nlri_len: the one-octet form writes a value below 0x%X (read back as a one-octet length)" % thr)
+            else:
+                r.fail(fv.name, "one-octet-length-range", "the one-octet length form is used for values up to %s, but the reader takes a first octet >= 0x%X as the start of a two-octet length" % (hi, thr), fv.loc(b))
+        else:
+            if lo >= thr:
+                r.ok("write_nlri_len: the two-octet form starts with an octet >= 0x%X" % thr)
+            else:
+                r.fail(fv.name, "two-octet-length-marker", "the two-octet length form can start with an octet below 0x%X (range [%s, %s]): the reader would take it for a one-octet length" % (thr, lo, hi), fv.loc(b))
+    if n < 2:
+        r.unanalysable("write_nlri_len: %d length forms recognised (want 2)" % n, fv.loc())
+
+
 def check_tables(prog, r, table):
     fv = view(prog, prog.one(r"rustybgp_packet::bgp::Nlri::encode"))
     r.analysed(fv.name)
